@@ -3,6 +3,7 @@
 use super::*;
 #[cfg(not(kani))]
 use crate::verif_contracts::kani;
+use bitcoin::hashes::Hash;
 
 static mut SP_OUTPOINT: Option<([u8; 32], u32)> = None;
 static mut SP_OFFSET: Option<u64> = None;
@@ -34,7 +35,6 @@ fn stub_offset(_s: &str, _r: u32) -> Result<u64, core::num::ParseIntError> {
 #[cfg_attr(kani, kani::stub(<OutPoint as core::str::FromStr>::from_str, stub_outpoint_from_str))]
 #[cfg_attr(kani, kani::stub(u64::from_str_radix, stub_offset))]
 pub fn c31_satpoint_from_str() {
-  use bitcoin::hashes::Hash;
   let op: Option<([u8; 32], u32)> = if kani::any() { Some((kani::any(), kani::any())) } else { None };
   let off: Option<u64> = kani::any();
   unsafe {
